@@ -29,7 +29,7 @@ def gen_orders(ctx, n):
     r = ctx.rng
     cases = []
     for i in range(n):
-        threads, meta = c01.gen_program(r, max_threads=r.choice([3, 4, 6, 9]), reap_kinds=KINDS, p_det=5)
+        threads, meta = c01.gen_program(r, max_threads=r.choice([3, 4, 6, 9]), reap_kinds=KINDS, p_det=5, null_share=3)
         for k in range(2):
             cases.append(trace.case_text(r.choice([1, 2, 2, 3, 4]), r.rng(1, 1 << 30), [], threads,
                                          pswitch=r.choice([20, 35, 60, 85])))
@@ -56,10 +56,11 @@ def gen_forced(ctx, n):
             elif kind == "try1":
                 ops.append("create %d%s" % (t, fl))
                 ops.append("tryjoin %d" % t if pf else "nop")       # determinate: EBUSY (the child has not run)
-                ops.append(r.choice(["join %d", "tryjoinw %d", "detach %d"]) % t)
+                ops.append(r.choice(["join %d", "tryjoinw %d", "detach %d", "tryjoinw %d null", "join %d null"]) % t)
             else:
                 ops.append("create %d%s" % (t, fl))
-                ops.append(("%s %d" % (kind, t)) + (" %d" % r.choice([2500, 6000]) if kind == "timedjoinw" else ""))
+                ops.append(("%s %d" % (kind, t)) + (" %d" % r.choice([2500, 6000]) if kind == "timedjoinw" else "") +
+                           (" null" if kind != "detach" and r.chance(1, 3) else ""))
             if r.chance(1, 3):
                 ops.append("yield")
             t += 1
@@ -190,7 +191,7 @@ def gen_cycles(ctx, cycles):
                     threads[nt] = list(threads[t])
                     free.append(nt)
             else:
-                ops.append(("%s %d" % (k, t)) + (" 3000" if k == "timedjoinw" else ""))
+                ops.append(("%s %d" % (k, t)) + (" 3000" if k == "timedjoinw" else "") + (" null" if r.chance(1, 3) else ""))
                 free.append(t)
     ops += ["yield"] * 12
     threads[0] = ops
@@ -250,14 +251,14 @@ def oracle(r):
                 bad.append("%s of t%d went on after a locked test that saw the target finished" % (cl["op"], cl["target"]))
             if cl["ret"] == 0:
                 t = cl["target"]
-                if str(P.expected_ret.get(t)) != str(cl.get("val")):
+                if not cl.get("null") and str(P.expected_ret.get(t)) != str(cl.get("val")):
                     bad.append("%s of t%d delivered %s, the thread returned/exited with %s" % (cl["op"], t, cl.get("val"), P.expected_ret.get(t)))
                 if not any(c["point"] == "join.reap" for c in cl["checks"]):
                     bad.append("%s of t%d returned 0 without reaping" % (cl["op"], t))
             elif any(c["point"] == "join.reap" for c in cl["checks"]):
                 bad.append("%s of t%d reaped but returned %d" % (cl["op"], cl["target"], cl["ret"]))
         if cl["op"] == "join" and "ret" in cl:
-            if cl["ret"] != 0 or str(P.expected_ret.get(cl["target"])) != str(cl.get("val")):
+            if cl["ret"] != 0 or (not cl.get("null") and str(P.expected_ret.get(cl["target"])) != str(cl.get("val"))):
                 bad.append("join of t%d returned %s val %s (expected value %s)" % (cl["target"], cl["ret"], cl.get("val"), P.expected_ret.get(cl["target"])))
         if cl["op"] == "detach" and "ret" in cl:
             if cl["ret"] != 0:
